@@ -99,6 +99,9 @@ def obligations(funcs, prefix, what, protected=None):
             if isinstance(n, ast.Call) and isinstance(n.func, ast.Attribute) and n.func.attr in MUTATORS and isinstance(n.func.value, (ast.Attribute, ast.Subscript)) \
                     and _root(n.func.value) is not None and live(_root(n.func.value), n.lineno):
                 bad.append("line %d: %s" % (n.lineno, ast.unparse(n)[:60]))       # x.attr.append(...) on state reachable from an argument
+            if isinstance(n, ast.Call) and isinstance(n.func, ast.Name) and n.func.id in ("setattr", "delattr") and n.args and _root(n.args[0]) is not None \
+                    and live(_root(n.args[0]), n.lineno):
+                bad.append("line %d: %s" % (n.lineno, ast.unparse(n)[:60]))
             if isinstance(n, (ast.Assign, ast.Delete)):
                 for t in n.targets:
                     if isinstance(t, (ast.Attribute, ast.Subscript)) and live(_root(t), n.lineno):
